@@ -10,7 +10,7 @@ FUNCS = ["cfg_opt_setnint/-float/-bool/-str", "cfg_opt_getval", "cfg_addval", "c
 
 
 def build_obs(tier, tables=None):
-    obs = api_obs("c09", ["CHK_C09"], ops=("SETN", "WRONGTYPE", "SETLIST", "ADDLIST", "SETMULTI", "ADDTSEC", "RMNSEC", "RMTSEC"), tier=tier)
+    obs = api_obs("c09", ["CHK_C09"], ops=("SETN", "WRONGTYPE", "SETLIST", "ADDLIST", "SETMULTI", "ADDTSEC", "RMNSEC", "RMTSEC", "SIMPLE_SET"), tier=tier)
     # removal "by path" = the path resolver's (section option, instance index) answer handed to the removal
     # by index checked above; the resolver's answer is checked on shaped paths (shared with C11)
     import props.C11 as C11
